@@ -216,8 +216,8 @@ func (s *inmemSentStorage) List(ctx context.Context, streamID uuid.UUID) (map[ui
 }
 
 func (s *inmemSentStorage) Clear(ctx context.Context, streamID uuid.UUID) error {
-	s.RLock()
-	defer s.RUnlock()
-	s.buf = make(map[uuid.UUID]map[uint32]DataPointGroups)
+	s.Lock()
+	defer s.Unlock()
+	delete(s.buf, streamID)
 	return nil
 }
